@@ -554,6 +554,7 @@ def build_inputs(ctx, n_fuzz):
     # seed-independent: static references x forms x positions; attribute names x back ends x values x scopes
     inputs += gen_fuzz.static_reference_cases()
     inputs += gen_fuzz.leaf_kind_cases()
+    inputs += gen_fuzz.twin_cases()[0]
     inputs += gen_fuzz.attribute_cases()
     # seed-independent: identifier shapes in every naming position; 64-bit ranges with user-written and synthesized expressions
     inputs += gen_fuzz.identifier_shape_cases()
@@ -600,6 +601,7 @@ def run(ctx):
     phase("coq")
 
     extra = {name: text for name, text in gen_fuzz.corpus(fw.REPO)}
+    extra.update(gen_fuzz.twin_cases()[1])
 
     # ---- replay of one recorded violation ------------------------------------------
     if getattr(ctx, "replay_path", None):
